@@ -39,15 +39,29 @@ META = dict(
     not_covered=[
         'mean / var / stddev / vector_norm / trace compositions (mean_divisor, var) and the named wrappers sum / prod / amax / amin / cumsum / cumprod',
         'dtype / result element type (a decltype fact)',
-        'accumulate: the prefix-range slice loop lives inside accumulate_t::operator() (no index function); instantiating the view is out of '
-        'reach of the translator (UNSUPPORTED: non-empty record constant fixed_shape_v). Its fold is the reducer_t loop proved here',
-        'the glue of reduce_t::operator(): apply_slice (C05), view::flatten in C order (C03 / C01), view::reduce dispatch incl. either for run-time keepdims',
+        'accumulate: the prefix-range slice loop lives inside accumulate_t::operator() (no index function); only the bounded unit accumulate_add_dtype.bounded '
+        '(one concrete 1-d geometry, run-time shape kind) exercises it; its fold is the reducer_t loop proved here',
+        'the glue of reduce_t::operator(): apply_slice (C05), view::flatten in C order (C03 / C01), view::reduce dispatch incl. either for run-time keepdims: '
+        'exercised only by the bounded units reduce_add_*_initial.bounded (one concrete 2x3 geometry each), not proved in general',
         'remove_dims with a run-time-length axis list (utl::static_vector<int,8>) or axis=None on bounded shapes: the library returns std::vector, '
         'for which the translator has no model; list axes are covered for the fixed-length kind nmtools_array<int,2> and in reduction_slices',
         'compile-time constant shapes / axes (type level)',
     ],
 )
 UNITS = [
+    # concrete-geometry bounded units: the real reduce / accumulate views end to end (decorator, reduce_t / accumulate_t, slicing, flatten, evaluator)
+    Unit('reduce_add_all_initial.bounded', 'c08k', 'verif_reduce_add_all_initial', mode='bp', plain=True, unwind=8, unwind_loops={'.': 8}, timeout=1500, object_bits=12,
+         bounded='2x3 int array, symbolic elements in [-1e5, 1e5], all loops unwound 8 times', waive=[r'arithmetic overflow on (signed to unsigned|unsigned to signed) type conversion'],
+         clause='reduction over all axes with an initial value folds initial and every element'),
+    Unit('reduce_add_axes_initial.bounded', 'c08k', 'verif_reduce_add_axes_initial', mode='bp', plain=True, unwind=8, unwind_loops={'.': 8}, timeout=1500, object_bits=12,
+         bounded='2x3 int array of fixed rank, explicit axes (0,1), symbolic elements in [-1e5, 1e5], all loops unwound 8 times', waive=[r'arithmetic overflow on (signed to unsigned|unsigned to signed) type conversion'],
+         clause='reduction over an explicit list of all axes with an initial value (number-valued view) folds initial and every element'),
+    Unit('reduce_add_axis0_initial.bounded', 'c08k', 'verif_reduce_add_axis0_initial', mode='bp', plain=True, unwind=8, unwind_loops={'.': 8}, timeout=1500, object_bits=12,
+         bounded='2x3 int array, symbolic elements in [-1e5, 1e5], all loops unwound 8 times', waive=[r'arithmetic overflow on (signed to unsigned|unsigned to signed) type conversion'],
+         clause='reduction over one axis with an initial value: each output folds initial and exactly the addressed elements'),
+    Unit('accumulate_add_dtype.bounded', 'c08k', 'verif_accumulate_add_dtype', mode='bp', plain=True, unwind=8, unwind_loops={'.': 8}, timeout=1500, object_bits=12,
+         bounded='4 signed chars, every value, all loops unwound 8 times', waive=[r'arithmetic overflow on (signed to unsigned|unsigned to signed) type conversion'],
+         clause='accumulate with a wider dtype forms the running fold in that type'),
     Unit('remove_dims.int_true', 'c08', 'verif_remove_dims_int_true', mode='bp', unwind=10, clause='NumPy result shape, one axis, keepdims=True (as the views instantiate it): rank kept, reduced axis has extent 1'),
     Unit('remove_dims.int_false', 'c08', 'verif_remove_dims_int_false', mode='bp', unwind=10, clause='NumPy result shape, one axis, keepdims=False: that axis removed, order of the others kept'),
     Unit('remove_dims.int_bool', 'c08', 'verif_remove_dims_int_bool', mode='bp', unwind=10, clause='NumPy result shape, one axis, run-time keepdims (direct index-level call)'),
